@@ -63,11 +63,18 @@ SuppliedVar(s, v) == IF CompOf(v) \in Sph THEN SuppliesSph(s[KindOf(v)])
 \*                 that there is nothing to do
 MechIntended == [ nodeFold |-> "after_populate",  centreUnits |-> "converted",
                   centreNormalize |-> TRUE,       normCheck |-> "per_kind" ]
-\* (revised: /repo 53c923b0 moved the folding of node_lon/node_lat after their population;
-\*  before that commit nodeFold was "before_populate")
-MechObserved == [ nodeFold |-> "after_populate",  centreUnits |-> "raw_degrees",
-                  centreNormalize |-> FALSE,      normCheck |-> "node_only" ]
-MechBefore53c923b0 == [MechObserved EXCEPT !.nodeFold = "before_populate"]
+\* MechObserved is revised whenever a fix lands in /repo.  History:
+\*   53c923b0  node_lon/node_lat getters populate, then fold        nodeFold        before_populate -> after_populate
+\*   b821f017  supplied centre lon/lat converted with deg2rad       centreUnits     raw_degrees -> converted
+\*   84240cbb  supplied centre x, y, z normalised before asin/atan2 centreNormalize FALSE -> TRUE
+\*   2f76d925  _check_normalization tests each kind's own arrays    normCheck       node_only -> per_kind
+\* so the code as read now makes the same choices as MechIntended.  MechBeforeFixes is the code
+\* as first read: the check explores it too and requires TLC to find failing states there (the
+\* model can tell the difference), and the revert mutants reproduce it in the real code.
+MechObserved == [ nodeFold |-> "after_populate",  centreUnits |-> "converted",
+                  centreNormalize |-> TRUE,       normCheck |-> "per_kind" ]
+MechBeforeFixes == [ nodeFold |-> "before_populate", centreUnits |-> "raw_degrees",
+                     centreNormalize |-> FALSE,      normCheck |-> "node_only" ]
 MechSpace == [ nodeFold : {"after_populate", "before_populate"},
                centreUnits : {"converted", "raw_degrees"},
                centreNormalize : BOOLEAN,
